@@ -203,6 +203,23 @@ func libBasicOK(h *ibctm.Header) bool {
 	return true
 }
 
+// libCommitOK: Misbehaviour.ValidateBasic's validCommit (CometBFT VerifyCommitLight of the header's own set).
+func libCommitOK(h *ibctm.Header) bool {
+	commit, err := cmttypes.CommitFromProto(h.Commit)
+	if err != nil {
+		return false
+	}
+	vs, err := cmttypes.ValidatorSetFromProto(h.ValidatorSet)
+	if err != nil {
+		return false
+	}
+	bid, err := cmttypes.BlockIDFromProto(&h.Commit.BlockID)
+	if err != nil {
+		return false
+	}
+	return vs.VerifyCommitLight(h.Header.ChainID, *bid, commit.Height, commit) == nil
+}
+
 // OracleLightVerify is the ground truth for `valid`: CometBFT's own light.Verify evaluated on the
 // trusted state the harness reads from the (already diffed) client store. ibc-go's wiring — which
 // consensus state, which period, which clock, which trusted validators check — is what is under test.
